@@ -764,9 +764,7 @@ class Fn:
                             carried = True
                             continue            # carried round the loop
                         sub = self.split_defs({'copy': {'l': src['l'], 'p': list(pl['p'])}}, (e.block, e.idx), depth + 1, seen)
-                        if len(sub) > 1 and len(evs) > 1:
-                            # one of several definitions: one entry, located at this copy (see the literal case below)
-                            sub = [(e.block, e.idx, frozenset().union(*[t_ for (_b, _i, t_) in sub]))]
+                        sub = self._settle(sub, e, len(evs))
                         out.extend(sub)
                     elif rv['k'] == 'agg' and (rv.get('agg') == 'tuple' or (
                             rv.get('agg') == 'adt' and not (self.b.crate.adts.get(rv.get('adt')) or {'is_enum': True}).get('is_enum'))) and \
@@ -779,13 +777,11 @@ class Fn:
                             carried = True
                             continue
                         sub = self.split_defs(fo, (e.block, e.idx), depth + 1, seen)
-                        if len(sub) > 1 and len(evs) > 1:
-                            # one of several literals: it is the definition of this component, one entry located at the literal,
-                            # whatever the history of the value put into it (`Candidate { index: nearest, .. }` with nearest found
-                            # by a scan) -- as for a variable with several definitions.  A single literal (the tuple a helper
-                            # returns) is transparent: the definitions of its component are followed.
-                            merged = frozenset().union(*[t_ for (_b, _i, t_) in sub])
-                            sub = [(e.block, e.idx, merged)]
+                        # one of several literals: it is the definition of this component, one entry located at the literal,
+                        # whatever the history of the value put into it (`Candidate { index: nearest, .. }` with nearest found
+                        # by a scan) -- as for a variable with several definitions.  A single literal (the tuple a helper
+                        # returns) is transparent: the definitions of its component are followed.
+                        sub = self._settle(sub, e, len(evs))
                         out.extend(sub)
                     else:
                         ok = False
@@ -813,6 +809,21 @@ class Fn:
             else:
                 out.append((e.block, e.idx, self.event_terms(e)))
         return out
+
+    def _settle(self, sub, e, n_here):
+        """where a component definition that passes through the copy / literal `e` is located:
+        several deeper definitions under one of several definitions here -> one entry at `e` (as for variables);
+        one deeper definition -> the later of the two points when the deeper one dominates `e` (the value is unchanged on
+        the way and every fact known there is known here, plus the guards in between: `ret = candidate` under the test),
+        else the deeper one (`acc = ret` after the join of the closure's two arms keeps the guarded arm's location)."""
+        if len(sub) > 1 and n_here > 1:
+            return [(e.block, e.idx, frozenset().union(*[t_ for (_b, _i, t_) in sub]))]
+        if len(sub) == 1:
+            (b1, i1, t1) = sub[0]
+            dom = self.dominators()
+            if (b1 == e.block and i1 <= e.idx) or (b1 != e.block and b1 in dom.get(e.block, ())):
+                return [(e.block, e.idx, t1)]
+        return sub
 
     # ------------------------------------------------------------------ A3
     def _psucc(self, pt, via_edges=None):
